@@ -77,6 +77,7 @@ func init() {
 		for sh := 0; sh < 4; sh++ {
 			p.Quick = append(p.Quick, HRun{Entry: "HarnessC03Key", Args: []int64{19, int64(sh), 0}, Bound: "every mapping x symbolic key of length 1..19 (all byte values) x value shape", Require: []string{"accepted-position"}})
 			p.Quick = append(p.Quick, HRun{Entry: "HarnessC03Replace", Args: []int64{int64(sh)}, Bound: "every existing entry of every mapping x value shape", Require: []string{"accepted-position"}})
+			p.Quick = append(p.Quick, HRun{Entry: "HarnessC03ReplaceFull", Args: []int64{int64(sh)}, Bound: "every existing entry of every mapping of the full skeleton x value shape x the entry moved one place up / down", Require: []string{"accepted-position"}})
 		}
 		p.Quick = append(p.Quick, HRun{Entry: "HarnessC03Skeleton", Bound: "every scalar value of the skeleton", Require: []string{"site"}})
 		p.Quick = append(p.Quick, HRun{Entry: "HarnessC03Key", Args: []int64{11, 1, 1}, Bound: "pairs of symbolic sibling keys of length 1..11, sequence-valued", Require: []string{"accepted-position"}})
@@ -125,6 +126,7 @@ func init() {
 			p.Quick = append(p.Quick, HRun{Entry: "HarnessC01Decoders", Args: []int64{int64(w), vl}, Bound: "one YAML node: symbolic kind, tag text (lengths 0,5,6,7,8,11), style bits, value bytes, 0-2 children of the same shape", Require: []string{"returned"}})
 		}
 		p.Quick = append(p.Quick, HRun{Entry: "HarnessC01Sweep", Args: []int64{0, 0}, Bound: "every node position of the full skeleton x symbolic kind/tag x 2 texts x {no children, original children}; parser only", Require: []string{"returned"}})
+		p.Quick = append(p.Quick, HRun{Entry: "HarnessC01SweepMatrix", Bound: "every node position below strategy.matrix (nested sequences and mappings incl.) x symbolic kind (scalar / sequence / mapping / alias) and tag, parser and all in-process rules", Require: []string{"returned"}})
 		p.Quick = append(p.Quick, HRun{Entry: "HarnessC01RunScript", Bound: "5 workflow-command scripts x all 2^n letter-case spellings, all in-process rules incl. deprecated-commands (regexp submatches on symbolic text)", Require: []string{"returned"}})
 		p.Quick = append(p.Quick, HRun{Entry: "HarnessC19Relations", Args: []int64{1, 1}, Bound: "matrix value comparison on all pairs of value trees of depth <= 1 (no panic)", Require: []string{"compared"}})
 		p.Quick = append(p.Quick, HRun{Entry: "HarnessC19Rule", Args: []int64{1, 1}, Bound: "matrix rule on rows / exclude / include built from value trees (no panic)", Require: []string{"rows"}})
@@ -165,6 +167,10 @@ func init() {
 		lexB := "every byte string of length %d (256^%d, symbolic bytes) followed by }}: lexer vs reference lexical grammar, maximal munch, whitespace interleaving"
 		for L := 0; L <= 3; L++ {
 			p.Quick = append(p.Quick, HRun{Entry: "HarnessC04Lex", Args: []int64{int64(L)}, Bound: fmt.Sprintf(lexB, L, L)})
+		}
+		for k := 0; k < 15; k++ {
+			p.Quick = append(p.Quick, HRun{Entry: "HarnessC04LexAfter", Args: []int64{int64(k), 2}, Bound: "2 arbitrary bytes after one of 15 concrete token beginnings (1e- 1e 0x 1. - 1.5e- 1.5E 0 'a' a.b a- < 1e-0 0x0 1.0) followed by }}"})
+			p.Thorough = append(p.Thorough, HRun{Entry: "HarnessC04LexAfter", Args: []int64{int64(k), 3}, Bound: "3 arbitrary bytes after one of 15 concrete token beginnings"})
 		}
 		for L := 0; L <= 4; L++ {
 			p.Thorough = append(p.Thorough, HRun{Entry: "HarnessC04Lex", Args: []int64{int64(L)}, Bound: fmt.Sprintf(lexB, L, L)})
